@@ -2,11 +2,15 @@ SPEC = {
     "id": "C11",
     "level": "proof",
     "lean_modules": ["PallasVerif.Props.C11"],
-    "required_theorems": ["verify_sign_generic", "verify_sign_standard", "verify_sign_extended", "check_structure_iff",
+    "required_theorems": ["verify_sign_generic", "check_depends_only_on_b0_b31", "check_table_entry", "verify_sign_standard", "verify_sign_extended", "check_structure_iff",
                           "check_structure_scalar", "clamp_satisfies", "from_bytes_accepts_iff", "verify_rejects_allzero",
                           "verifyRfc_rejects_noncanonical"],
     "streams": [{"name": "ed25519", "quick": 96, "thorough": 1600}],
-    "rule": "a case = one random 32-byte secret key (incl. all-zero / all-ff), a message of 0..1024 bytes (boundary lengths of the SHA-512 "
+    "rule": "EXHAUSTIVE in every run: check_structure / from_bytes / TryFrom over all 256x256 values of (byte 0, byte 31) (op xtable: the whole "
+            "accept table is compared with the Lean checkStructure and with the bit-level oracle); every small-order or oddly encoded public key "
+            "(8 torsion points + x=0-with-sign + y>=p encodings, 14 keys) x every small-order R (+ a non-canonical R) x S=0 x 4 messages; for valid "
+            "signatures every S+kL that fits 32 bytes (k=1..15), all 7 non-zero values of the top three bits of S, key / R sign bit flipped, R or S "
+            "zeroed. SAMPLED: a case = one random 32-byte secret key (incl. all-zero / all-ff), a message of 0..1024 bytes (boundary lengths of the SHA-512 "
             "padding included), its public key, signature and verification, 6 (thorough 24) single-bit tamperings of message / key / signature, "
             "one of {message extended, S+L, random signature, random key, swapped halves}, an extended key whose five clamping bits take "
             "combination (case number mod 32) so all 2^3*2^2 combinations come up, and a properly clamped extended key signed and verified; "
